@@ -11,7 +11,7 @@ tie:    the checker and the table are extracted to OCaml and run on the results 
 import json, math, os, sys
 from fractions import Fraction as Fr
 from vlib.core import ROOT, BUILD
-from props.C19 import par_run_lines, scale_of, to_int, parse_geom
+from props.C19 import par_run_lines, scale_of, to_int, path_simple
 
 if hasattr(sys, 'set_int_max_str_digits'):
     sys.set_int_max_str_digits(0)
@@ -84,9 +84,28 @@ def tokens(g, K):
     return ['GC', str(len(d))] + [x for h in d for x in tokens(h, K)]
 
 
-def from_parsed(g):
-    """harness token tree (props.C19.parse_geom) -> the same tuples; parse_geom returns ('LS', pts) also for LR"""
-    return g
+def parse_geom(toks, i=0):
+    """harness tokens -> tuples (members of multi geometries keep their own tags; LR stays LR)"""
+    t = toks[i]
+    if t == 'PT':
+        if toks[i + 1] == 'E':
+            return ('PT', None), i + 2
+        return ('PT', (float(toks[i + 1]), float(toks[i + 2]))), i + 3
+    if t in ('LS', 'LR'):
+        n = int(toks[i + 1]); p = i + 2
+        return (t, [(float(toks[p + 2 * k]), float(toks[p + 2 * k + 1])) for k in range(n)]), p + 2 * n
+    if t == 'PG':
+        k = int(toks[i + 1]); p = i + 2; rings = []
+        for _ in range(k):
+            n = int(toks[p]); p += 1
+            rings.append([(float(toks[p + 2 * j]), float(toks[p + 2 * j + 1])) for j in range(n)]); p += 2 * n
+        return ('PG', rings), p
+    if t in ('MPT', 'MLS', 'MPG', 'GC'):
+        m = int(toks[i + 1]); p = i + 2; parts = []
+        for _ in range(m):
+            g, p = parse_geom(toks, p); parts.append(g)
+        return (t, parts), p
+    raise ValueError('token ' + t)
 
 
 def kind_code(g):
@@ -99,6 +118,13 @@ def kind_code(g):
     ks = {kind_code(x) for x in d} - {0}
     if not ks: return 0
     return ks.pop() if len(ks) == 1 else 5
+
+
+def has_kind(g, kind):
+    t, d = g
+    if t == kind: return True
+    if t in ('MPT', 'MLS', 'MPG', 'GC'): return any(has_kind(x, kind) for x in d)
+    return False
 
 
 def has_collection(g):
@@ -211,8 +237,14 @@ def gen_case_geom(rng):
         return gen_invalid_polygon(rng, R)
     if k < 0.52:
         return gen_line(rng, R)
-    if k < 0.58:
+    if k < 0.55:
         return ('PT', (rng.randint(0, R), rng.randint(0, R))), 'point'
+    if k < 0.58:        # LinearRing atoms: collapsed (a,a,a), (a,b,a), valid, self-crossing
+        r = rng.random(); a = (rng.randint(0, R), rng.randint(0, R)); b = (a[0] + rng.randint(1, 4), a[1] + rng.randint(0, 3))
+        if r < 0.2: return ('LR', [a, a, a]), 'ring-point'
+        if r < 0.45: return ('LR', [a, b, a]), 'ring-spike'
+        if r < 0.7: return ('LR', rect(a[0], a[1], a[0] + 3, a[1] + 2)), 'ring-valid'
+        return ('LR', [(0, 0), (4, 4), (4, 0), (0, 4), (0, 0)]), 'ring-crossing'
     if k < 0.64:
         n = rng.randint(1, 3)
         return ('MLS', [gen_line(rng, R)[0] for _ in range(n)]), 'multiline'
@@ -306,7 +338,7 @@ def run(ctx):
                 if l and not l.startswith('#'):
                     cases.append(fix_case(json.loads(l)))
         rng = ctx.rng
-        n = 450 if ctx.quick else 4000
+        n = 1500 if ctx.quick else 40000
         dist = {}
         for _ in range(n):
             g, label = gen_case_geom(rng)
@@ -348,6 +380,11 @@ def jsonable(g):
     return [t, [jsonable(x) for x in d]]
 
 
+def fix_request(m, keep, iv, g, r, K):
+    M = max([abs(to_int(v, K)) for v in all_vals(g) + all_vals(r)] + [1])
+    return 'FIX %s %d %d %d %d | %s | %s' % (m, keep, iv, M * M, 10 ** 18, ' '.join(tokens(g, K)), ' '.join(tokens(r, K)))
+
+
 def harness_line(c):
     return 'MV %s %d %s' % (c['method'], c['keep'], wkt(c['geom']))
 
@@ -366,11 +403,7 @@ def parse_res(o):
 
 
 def conv(g):
-    """props.C19.parse_geom tree -> C17 tuples (members of multis keep their own tags)"""
-    t, d = g
-    if t in ('PT', 'LS', 'PG'):
-        return (t, d)
-    return (t, [conv(x) for x in d])
+    return g
 
 
 def find_known(ctx, fid):
@@ -378,6 +411,39 @@ def find_known(ctx, fid):
         if k.get('id') == fid and k.get('status') == 'known':
             return k
     return None
+
+
+def rings_of(g):
+    t, d = g
+    if t == 'PG': return list(d)
+    if t in ('MPG', 'GC'): return [r for x in d for r in rings_of(x)]
+    return []
+
+
+def ring_self_overlap(g):
+    """key of C17-F2: a ring with two of its own segments overlapping collinearly over a positive length"""
+    for r in rings_of(g):
+        ss = [(a, b) for a, b in zip(r, r[1:]) if a != b]
+        for i in range(len(ss)):
+            for j in range(i + 1, len(ss)):
+                (a, b), (c, d) = ss[i], ss[j]
+                if (b[0] - a[0]) * (c[1] - a[1]) - (b[1] - a[1]) * (c[0] - a[0]) != 0 or (b[0] - a[0]) * (d[1] - a[1]) - (b[1] - a[1]) * (d[0] - a[0]) != 0:
+                    continue
+                t = lambda q: (q[0] - a[0]) * (b[0] - a[0]) + (q[1] - a[1]) * (b[1] - a[1])
+                lo, hi = sorted([t(c), t(d)])
+                if max(lo, 0) < min(hi, t(b)):
+                    return True
+    return False
+
+
+def strip_nonfinite(g):
+    """the geometry without its non-finite vertices (what removeRepeatedAndInvalidPoints leaves)"""
+    ok = lambda p: all(not (isinstance(v, float) and (math.isnan(v) or math.isinf(v))) for v in p)
+    t, d = g
+    if t == 'PT': return (t, d if d is not None and ok(d) else None)
+    if t in ('LS', 'LR'): return (t, [p for p in d if ok(p)])
+    if t == 'PG': return (t, [[p for p in r if ok(p)] for r in d])
+    return (t, [strip_nonfinite(x) for x in d])
 
 
 def dedup(pts):
@@ -450,7 +516,7 @@ def judge_all(ctx, drv, cases, shrink=False):
         if K > 2 ** 70:
             continue
         m = 'L' if c['method'] in ('L', 'D') else 'S'
-        ml.append('FIX %s %d %d | %s | %s' % (m, c['keep'], fl.get('IV', 0), ' '.join(tokens(c['geom'], K)), ' '.join(tokens(r, K))))
+        ml.append(fix_request(m, c['keep'], fl.get('IV', 0), c['geom'], r, K))
         mi.append(i)
         tb = table_request(c)
         if tb is not None:
@@ -493,6 +559,9 @@ def table_request(c):
     t, d = c['geom']
     if t == 'LS' and d:
         return 'TABLE %d L %d 0 0' % (c['keep'], len(dedup(d))), 'line'
+    if t == 'LR' and d:
+        dd = dedup(d)
+        return 'TABLE %d R %d 0 %d' % (c['keep'], len(dd), 1 if (len(dd) >= 4 and path_simple(dd)) else 0), 'ring'
     if t == 'PG' and len(d) == 1 and d[0]:
         n = len(dedup(d[0]))
         if collinear_all(d[0]):
@@ -509,6 +578,7 @@ def judge_case(ctx, c, line, o, pr, mres, tres, st):
     if not fin: st('nonfinite')
     if has_collection(g): st('collection')
     f9 = find_known(ctx, 'F9') if (lw and not fin) else None
+    f2 = find_known(ctx, 'C17-F2') if (m == 'S' and ring_self_overlap(strip_nonfinite(g))) else None
     if o.startswith('READFAIL'):
         return []
     if o.startswith('CRASH') or o in ('TIMEOUT', 'MISSING', ''):
@@ -516,19 +586,45 @@ def judge_case(ctx, c, line, o, pr, mres, tres, st):
         return [('no-crash', 'implementation %s' % (o[:200] or 'died'), None)]
     if pr is None:
         ctx.count(line, True)
-        return [('returns-a-geometry', 'implementation answered %s' % o[:200], f9)]
+        kf = f9
+        rs = rings_of(g)
+        if kf is None and lw and fin and 'mixed-dimension' in o and len(rs) >= 2 and rs[0] and len(set(rs[0])) == 1 and g[0] in ('PG', 'MPG'):
+            kf = find_known(ctx, 'C17-F3')
+        if kf is None and lw and fin and 'UnsupportedOperationException' in o and has_kind(g, 'LR'):
+            kf = find_known(ctx, 'C17-F4')
+        return [('returns-a-geometry', 'implementation answered %s' % o[:200], kf)]
     r, fl, r2 = pr
     nontriv = fl.get('IV') == 0 or len(all_vals(g)) >= 8
     ctx.count(line, nontriv)
     st('invalid-input' if fl.get('IV') == 0 else 'valid-input')
     if fl.get('V') != 1:
-        bad.append(('result-valid', 'GEOSisValid_r(result) = %s for %s' % (fl.get('V'), wkt(r)[:200]), f9))
+        bad.append(('result-valid', 'GEOSisValid_r(result) = %s for %s' % (fl.get('V'), wkt(r)[:200]), f9 or f2))
     if fl.get('DO', 9) > fl.get('DI', -1):
         bad.append(('dimension', 'result dimension %s > input dimension %s' % (fl.get('DO'), fl.get('DI')), f9))
-    if fl.get('IV') == 1 and fl.get('EQ') != 1 and not (kind_code(g) == 0 and kind_code(r) == 0):
+    if fl.get('IV') == 1 and fl.get('EQ') == 0 and not (kind_code(g) == 0 and kind_code(r) == 0):
         bad.append(('valid-input-equal', 'GEOSEquals_r(input, result) = %s for a valid input' % fl.get('EQ'), None))
-    if fl.get('IDEM') != 1 or fl.get('IDEMV') != 1:
-        bad.append(('idempotent', 'fix(fix(g)) differs from fix(g) (IDEM=%s, valid=%s): %s' % (fl.get('IDEM'), fl.get('IDEMV'), wkt(r2)[:150] if r2 else 'NULL'), f9))
+    # empty atoms are compared without their type (fixing POLYGON EMPTY with keepCollapsed gives LINESTRING EMPTY: the same, empty, point set)
+    def cring(rr):
+        c = list(map(tuple, rr[:-1])) if len(rr) > 1 and tuple(rr[0]) == tuple(rr[-1]) else list(map(tuple, rr))
+        if not c: return ()
+        best = None
+        for seq_ in (c, c[::-1]):
+            i = seq_.index(min(seq_)); rot = tuple(seq_[i:] + seq_[:i])
+            best = rot if best is None or rot < best else best
+        return best
+    def canon(x):
+        t, d = x
+        if t == 'PT': return ('E',) if d is None else ('PT', tuple(d))
+        if t in ('LS', 'LR'):
+            if not d: return ('E',)
+            a = tuple(map(tuple, d)); return (t, min(a, a[::-1]))
+        if t == 'PG':
+            return ('E',) if not d else ('PG', cring(d[0]), tuple(sorted(cring(h) for h in d[1:])))
+        parts = [canon(y) for y in d]
+        return (t, tuple(parts if t == 'GC' else sorted(parts)))
+    same_up_to_empties = r2 is not None and (canon(r) == canon(r2) or (kind_code(r) == 0 and kind_code(r2) == 0))
+    if (fl.get('IDEM') != 1 and not same_up_to_empties) or fl.get('IDEMV') != 1:
+        bad.append(('idempotent', 'fix(fix(g)) differs from fix(g) (IDEM=%s, valid=%s): %s' % (fl.get('IDEM'), fl.get('IDEMV'), wkt(r2)[:150] if r2 else 'NULL'), f9 or (f2 if fl.get('V') != 1 else None)))
     if mres is not None:
         ml, mo = mres
         if mo.startswith(('CRASH', 'TIMEOUT', 'PARSE', 'ERROR', '?')):
@@ -579,7 +675,7 @@ def fails(ctx, drv, c, clause):
     if pr is not None and finite(c['geom']) and finite(pr[0]):
         K = scale_of(all_vals(c['geom']) + all_vals(pr[0]))
         m = 'L' if c['method'] in ('L', 'D') else 'S'
-        q = 'FIX %s %d %d | %s | %s' % (m, c['keep'], pr[1].get('IV', 0), ' '.join(tokens(c['geom'], K)), ' '.join(tokens(pr[0], K)))
+        q = fix_request(m, c['keep'], pr[1].get('IV', 0), c['geom'], pr[0], K)
         mres = (q, ctx.run_lines([drv], [q], timeout=120)[0])
     save = (ctx.cov['evaluations'], ctx.cov['distinct_nontrivial'], set(ctx._distinct), list(ctx.broken))
     v = judge_case(ctx, c, line, o, pr, mres, None, lambda k, n=1: None)
